@@ -122,9 +122,15 @@ class Gen:
         return out
     def doc(self, nparas=None):
         stories = []
-        if self.profile == 'full' and self.r.random() < .25: stories.append({'kind': 0, 'blocks': self.blocks(self.r.randint(0, 2))}); self.features.add('header')
+        if self.profile == 'full' and self.r.random() < .25:
+            x = self.r.random()
+            if x < .7: stories.append({'kind': 0, 'blocks': self.blocks(self.r.randint(0, 2))}); self.features.add('header')
+            if x > .5: stories.append({'kind': 0, 'hf': 'first', 'blocks': self.blocks(self.r.randint(1, 2))}); self.features.add('first_header')
         stories.append({'kind': 1, 'blocks': self.blocks(nparas or self.r.randint(1, 5))})
-        if self.profile == 'full' and self.r.random() < .25: stories.append({'kind': 2, 'blocks': self.blocks(self.r.randint(1, 2))}); self.features.add('footer')
+        if self.profile == 'full' and self.r.random() < .25:
+            x = self.r.random()
+            if x < .7: stories.append({'kind': 2, 'blocks': self.blocks(self.r.randint(1, 2))}); self.features.add('footer')
+            if x > .5: stories.append({'kind': 2, 'hf': 'first', 'blocks': self.blocks(self.r.randint(1, 2))}); self.features.add('first_footer')
         return {'stories': stories, 'comments': self.comments, 'next_uid': self.uid + 1000, 'rpr_table': self.table_list(), 'features': sorted(self.features)}
     def table_list(self): return list(RPR_EXTRA) + ['<w:rStyle w:val="CommentReference"></w:rStyle>']
 
